@@ -55,7 +55,7 @@ func (c *Ctx) ruleMinZero(rule string, tb *ir.TB) {
 }
 
 func c13(c *Ctx) {
-	c.R.Explanation = "C13: the override discipline, decided on the SSA of /repo. R-writers = the limit fields {MinPwm,StartPwm,MaxPwm} of every Fan implementation are stored only in composite literals (construction from the configuration) and in that type's three setters; FanConfig.{MinPwm,StartPwm,MaxPwm} are stored only in composite literals; nothing is stored *through* those pointers. R-guard = in each setter the store is reachable only across an edge establishing Config.<same field> == nil or force == true. R-force = every setter call reachable from an AttachFanRpmCurveData implementation passes the constant false, and no other call site in the repository passes a non-false force. R-min0 = every GetMinPwm implementation returns the constant 0 unless never-stop was established. R-empty = every AttachFanRpmCurveData implementation that changes limits returns a non-nil error, before touching any limit or the curve data, on the edges data == nil and len(*data) <= 0. R-wholerpm = in the boundary computation every comparison on a value read from the curve data has integer-typed operands (the statement's 'in whole RPM'). Not decided: that the scan picks the right keys (functional correctness)."
+	c.R.Explanation = "C13: the override discipline, decided on the SSA of /repo. R-replace = AttachFanRpmCurveData overwrites the curve-data field (the one GetFanRpmCurveData returns) with the attached data or a copy made in the call on every path before ComputePwmBoundaries, so limits follow the data attached, not a union with earlier data. R-writers = the limit fields {MinPwm,StartPwm,MaxPwm} of every Fan implementation are stored only in composite literals (construction from the configuration) and in that type's three setters; FanConfig.{MinPwm,StartPwm,MaxPwm} are stored only in composite literals; nothing is stored *through* those pointers. R-guard = in each setter the store is reachable only across an edge establishing Config.<same field> == nil or force == true. R-force = every setter call reachable from an AttachFanRpmCurveData implementation passes the constant false, and no other call site in the repository passes a non-false force. R-min0 = every GetMinPwm implementation returns the constant 0 unless never-stop was established. R-empty = every AttachFanRpmCurveData implementation that changes limits returns a non-nil error, before touching any limit or the curve data, on the edges data == nil and len(*data) <= 0. R-wholerpm = in the boundary computation every comparison on a value read from the curve data has integer-typed operands (the statement's 'in whole RPM'). Not decided: that the scan picks the right keys (functional correctness)."
 	tb := ir.NewTB(c.P.IsRepoFunc, c.P.FuncKey)
 	tb.InlineMaxBlocks = 0
 
@@ -399,4 +399,86 @@ func c13(c *Ctx) {
 		}
 	}
 	c.R.Require("R-wholerpm", 1)
+
+	// ---- R-replace: attaching curve data replaces what the fan holds ---------------------
+	// "limits follow the RPM curve" for the data attached: before the boundaries are derived, the field
+	// that GetFanRpmCurveData returns is overwritten, on every path, with the parameter or with a map
+	// created in this activation (a copy) - never merged into whatever the fan held before.
+	nrep := 0
+	for _, ft := range fanTypes {
+		attach, getter := c.Method(ft, "AttachFanRpmCurveData"), c.Method(ft, "GetFanRpmCurveData")
+		if attach == nil || getter == nil || len(attach.Blocks) == 0 {
+			continue
+		}
+		var derive []ssa.Instruction
+		Calls(attach, func(cc ssa.CallInstruction) {
+			if st := ir.Callee(cc).Static; st != nil && ir.FuncIs(st, PkgFans, "ComputePwmBoundaries") {
+				derive = append(derive, cc)
+			}
+		})
+		if len(derive) == 0 {
+			continue // implementation derives nothing from the data
+		}
+		nrep++
+		key := c.FK(attach)
+		field := ""
+		for _, rt := range ir.Returns(getter) {
+			if t := tb.Of(rt.Results[0], nil); strings.HasPrefix(t.Op, "field:") {
+				field = strings.TrimPrefix(t.Op, "field:")
+			}
+		}
+		if field == "" || len(attach.Params) < 2 {
+			c.R.Undecided("R-replace", key, key, c.P.Pos(attach.Pos()), "curve-data field not identified from GetFanRpmCurveData (anchor unresolved)")
+			continue
+		}
+		param := attach.Params[1]
+		fresh := func(v ssa.Value) bool {
+			v = ir.Resolve(v)
+			if v == ssa.Value(param) {
+				return true
+			}
+			switch x := v.(type) {
+			case *ssa.Alloc:
+				// &local where local is a map made here
+				for _, s2 := range ir.StoresTo(x) {
+					if _, ok := ir.Resolve(s2.Val).(*ssa.MakeMap); !ok {
+						return false
+					}
+				}
+				return len(ir.StoresTo(x)) > 0
+			}
+			return false
+		}
+		isReplace := func(ins ssa.Instruction) bool {
+			st, ok := ins.(*ssa.Store)
+			if !ok {
+				return false
+			}
+			fa, ok := st.Addr.(*ssa.FieldAddr)
+			if !ok {
+				return false
+			}
+			if _, n, _ := ir.FieldName(fa); n != field {
+				return false
+			}
+			return fresh(st.Val)
+		}
+		missed := false
+		ir.Search{StopInstr: isReplace}.Reach([]ir.Point{{Block: attach.Blocks[0], Idx: 0}}, func(ins ssa.Instruction, _ *ssa.BasicBlock) {
+			for _, d := range derive {
+				if ins == d {
+					missed = true
+				}
+			}
+		})
+		if missed {
+			c.R.Bad("R-replace", key, key, c.P.Pos(derive[0].Pos()), "the limits are derived on a path on which the fan's curve data ("+field+") was not replaced by the attached data: data already held by the fan (an earlier attach, live RPM updates) is mixed into the boundaries")
+		} else {
+			c.R.Ok("R-replace", key, key, c.P.Pos(derive[0].Pos()), "before ComputePwmBoundaries every path stores the attached data (the parameter or a map made in this call) into "+field)
+		}
+	}
+	if nrep == 0 {
+		c.R.Undecided("R-replace", "none", PkgFans, "-", "no AttachFanRpmCurveData implementation derives limits (anchor unresolved)")
+	}
+	c.R.Require("R-replace", 1)
 }
